@@ -1,6 +1,7 @@
 import FxVerif.Proofs.C03View
 import FxVerif.Proofs.C03Prog
 import FxVerif.Proofs.C03Refine
+import FxVerif.Proofs.C03Legacy
 
 /-!
 # C03 — the executed event is field-for-field the event the quorum voted for
@@ -565,6 +566,50 @@ theorem executed_is_voted_from {η : Type} [DecidableEq η] (H : Str → η) (le
   obtain ⟨k₂, v₂⟩ := valid _ pe
   exact anyClaim_path_injective k₁ k₂ _ _ v₁ v₂ (collisionFree _ pv _ pe hk)
 
+/-- every `TryAttestation` call site is handed the attestation of the vote itself AND the voter's claim -/
+theorem attest_sites_own : OwnSites attestTrySites := by
+  intro t ht
+  simp only [attestTrySites, List.mem_singleton] at ht
+  subst ht
+  exact ⟨rfl, rfl⟩
+
+/-- … and the stale attestations are left exactly where they are, votes and all: no vote is added to them, none is
+observed, moved or deleted by any history -/
+theorem stale_attestations_untouched {η : Type} [DecidableEq η] (H : Str → η) (le : η → η → Bool) (s₀ : AState η) (ops : List Op)
+    (fresh₀ : s₀.executed = [])
+    (stale : ∀ a ∈ s₀.atts, ∀ c ∈ Op.claims ops, ¬(a.nonce = c.nonce ∧ a.hash = H c.path)) :
+    ∀ a ∈ s₀.atts, a ∈ (run (fun c => H c.path) le s₀ ops).atts := by
+  intro a ha
+  exact keeps_run attestTrySites attestLookup attest_sites_well_keyed attest_sites_own attest_lookup_own_key (fun c => H c.path) le
+    (fun c => c ∈ Op.claims ops) (fun a => a ∈ s₀.atts) (fun a ha c hc => stale a ha c hc) ops s₀
+    ⟨fun a ha => Or.inr ha, fun e he => by rw [fresh₀] at he; cases he⟩ (fun _ h => h) a ha ha
+
+/-- the hypothesis `stale` is a THEOREM for the legacy bridge-call format: no valid claim of any type has, under the current
+(regenerated) formats, the path the earlier release hashed for a valid bridge call (8 separators; the current formats have
+5, 10, 5, 4, 6, 4) -/
+theorem legacy_bridgeCall_key_stale (k₁ k₂ : AddrKind) (a : MsgBridgeCallClaim) (va : a.valid k₁ = true) (c : AnyClaim)
+    (vc : c.valid k₂ = true) : legacyBridgeCallPath a ≠ c.path := legacy_bc_ne_current va c vc
+
+/-- … and for the legacy bridge-call-result format (`h/n/nonce/bool/cause`: 4 separators, like the current send-to-external
+and oracle-set formats, from which it differs in the fourth component) -/
+theorem legacy_bridgeCallResult_key_stale (k₁ k₂ : AddrKind) (a : MsgBridgeCallResultClaim) (va : a.valid k₁ = true)
+    (c : AnyClaim) (vc : c.valid k₂ = true) : legacyBridgeCallResultPath a ≠ c.path := legacy_bcr_ne_current va c vc
+
+/-- **across the upgrade `b7515bc`, no hypothesis on keys left** (ideal hash): start from any state whose attestations sit
+under the legacy path of some valid bridge call or bridge-call result — with any votes, any recorded claim — and run any
+history of valid claims: every execution hands the handler what every tallied voter voted for -/
+theorem executed_is_voted_across_upgrade (le : Str → Str → Bool) (s₀ : AState Str) (ops : List Op)
+    (valid : ∀ c ∈ Op.claims ops, ∃ k, c.valid k = true) (fresh₀ : s₀.executed = [])
+    (legacy : ∀ a ∈ s₀.atts, (∃ k, ∃ m : MsgBridgeCallClaim, m.valid k = true ∧ a.hash = legacyBridgeCallPath m)
+      ∨ (∃ k, ∃ m : MsgBridgeCallResultClaim, m.valid k = true ∧ a.hash = legacyBridgeCallResultPath m)) :
+    ∀ e ∈ (run (fun c => c.path) le s₀ ops).executed, ∀ v ∈ e.tallied, v.2.effect = e.claim.effect := by
+  refine executed_is_voted_from id le s₀ ops valid (fun _ _ _ _ h => h) fresh₀ ?_
+  intro a ha c hc hk
+  obtain ⟨k₂, vc⟩ := valid c hc
+  rcases legacy a ha with ⟨k, m, vm, e⟩ | ⟨k, m, vm, e⟩
+  · exact legacy_bc_ne_current vm c vc (e ▸ hk.2)
+  · exact legacy_bcr_ne_current vm c vc (e ▸ hk.2)
+
 /-- the other bridge call of `legacyOps`: same legacy hash as `wCall`, another memo and origin -/
 def wCall' : MsgBridgeCallClaim := { wCall with Memo := memoSendCallTo, TxOrigin := ethB }
 
@@ -599,6 +644,16 @@ example : (run (fun c => c.path) (fun _ _ => true) upgradedState [.vote 1 (.bc w
 example : upgradedState.executed = []
     ∧ ∀ a ∈ upgradedState.atts, ∀ c ∈ Op.claims [.vote 1 (.bc wCall') false, .vote 2 (.bc wCall') false],
         ¬(a.nonce = c.nonce ∧ a.hash = c.path) := by decide +kernel
+
+/-- non-vacuity of `executed_is_voted_across_upgrade`: `upgradedState` is such a state (its attestation sits under the
+legacy path of the valid bridge call `wCall`) -/
+example : upgradedState.executed = [] ∧ ∀ a ∈ upgradedState.atts,
+    (∃ k, ∃ m : MsgBridgeCallClaim, m.valid k = true ∧ a.hash = legacyBridgeCallPath m)
+    ∨ (∃ k, ∃ m : MsgBridgeCallResultClaim, m.valid k = true ∧ a.hash = legacyBridgeCallResultPath m) := by
+  refine ⟨rfl, fun a ha => Or.inl ⟨.eth, wCall, by decide, ?_⟩⟩
+  simp only [upgradedState, List.mem_singleton] at ha
+  subst ha
+  rfl
 
 /-! ## what the handlers READ is what the quorum voted for (round 3)
 
